@@ -74,8 +74,8 @@ pub fn run(a: &Args) {
         let threads: Vec<ThreadSpec> = (0..nth).map(|i| ThreadSpec { kind: if !crowd && !held_all && (shape > 0 || i == 1) && rng.chance(1, 3) { Kind::NullSp } else { Kind::Block }, sp_off: 0x800, pages: 2, name: Some(format!("w{i}").into_bytes()), at: None }).collect();
         // the linker stream can fail because its data cannot be read, or because a loaded object's name is not valid UTF-8
         // (a different error value travels into the soft-error list)
-        let dso_fails = shape > 0 && (rng.chance(1, 2) || shape == 4);
-        let dso_bad_name = dso_fails && shape != 4 && rng.chance(1, 2);
+        let dso_fails = shape > 0 && (rng.chance(1, 2) || shape == 4 || shape == 5);   // (shapes 4 and 5: fixed - no PT_DYNAMIC / a name that is not UTF-8)
+        let dso_bad_name = dso_fails && shape != 4 && (shape == 5 || rng.chance(1, 2));
         // ... or because the program headers the writer is shown are readable but hold no PT_DYNAMIC entry (AT_PHNUM too small,
         // a static executable): that is a failure of the step like any other and must be reported
         let dso_nodyn = dso_fails && !dso_bad_name && (shape == 4 || rng.chance(1, 2));
@@ -103,7 +103,9 @@ pub fn run(a: &Args) {
         let skip_unref = shape > 0 && rng.chance(1, 3);
         let chain_base = target.fact_hex("chain");
         let configure = |w: &mut MinidumpWriter| {
-            if held_main { w.stop_timeout(std::time::Duration::from_millis(40)); }
+            // (where nothing holds the target, stopping it must not be reported as failed just because the machine is slow: with 130
+            // threads the group stop can take longer than the writer's default of 100 ms on a loaded or cold machine)
+            if held_main { w.stop_timeout(std::time::Duration::from_millis(40)); } else { w.stop_timeout(std::time::Duration::from_secs(20)); }
             if skip_unref { w.skip_stacks_if_mapping_unreferenced(); }
             if dso_bad_name { w.set_direct_auxv_dump_info(DirectAuxvDumpInfo { program_header_count: 2, program_header_address: chain_base, linux_gate_address: 0, entry_address: 0 }); }
             else if dso_nodyn { w.set_direct_auxv_dump_info(DirectAuxvDumpInfo { program_header_count: 1, program_header_address: chain_base, linux_gate_address: 0, entry_address: 0 }); }
